@@ -255,6 +255,21 @@ check("C16", "exploration",
       "runtime monitoring: replay of the same evaluation under different process / address-space / history conditions with a byte-equality oracle",
       "DESIGN.md §3 C16")
 
+check("C18", "exploration",
+      "Collector: evaluates hand-written cyclic structures, the C03 sharing shapes, sampled C02 chains, random programs (values "
+      "and errors, stack overflows) and importing files three times each in fresh states, and batches in one long-lived state "
+      "that is then dropped, reading jrsonnet_gcmodule::count_thread_tracked() after collect_thread_cycles() and the interner "
+      "pool size once every handle of the job is gone; the gauges must not grow from one repetition to the next. Interner: an "
+      "operation-sequence driver runs every history of <= 4 (quick) / 6 (thorough) operations (intern str / bytes, clone, drop, "
+      "cast, pool hand-over) over 8 contents and 4 handle slots plus long random histories with hand-over to another thread "
+      "against the real interner and an executable model, checking 5 invariants after every operation, in optimised and "
+      "debug-assertion builds and under Miri.",
+      "Objects that stay tracked after the first evaluation of a program are treated as per-thread singletons (the shared "
+      "empty object, cached builtin parameter names): a leak is defined as growth per repetition. Miri covers only the "
+      "histories it is given (exhaustive to length 2 / 3 plus a few hundred random operations).",
+      "runtime monitoring: gauge monitors at quiescent points (collector), executable-model invariant checker over operation histories (interner), Miri",
+      "DESIGN.md §3 C18")
+
 NOT_APPLICABLE = []
 
 
